@@ -711,3 +711,478 @@ Proof.
     apply N.log2_lt_pow2; [lia|]. eapply N.lt_le_trans; [exact H|].
     change two64 with (2 ^ 64). apply N.pow_le_mono_r; lia.
 Qed.
+
+Lemma round_cap_props nbits :
+  nbits + 63 < two64 -> nbits <= round_cap nbits /\ round_cap nbits < nbits + 64 /\ round_cap nbits mod 64 = 0.
+Proof.
+  intros H. rewrite (round_cap_spec _ H).
+  pose proof (N.div_mod (nbits + 63) 64 ltac:(discriminate)) as D.
+  pose proof (N.mod_lt (nbits + 63) 64 ltac:(discriminate)) as L.
+  set (q := (nbits + 63) / 64) in *. set (m := (nbits + 63) mod 64) in *.
+  split; [lia|]. split; [lia|].
+  rewrite N.mul_comm. apply N.mod_mul. discriminate.
+Qed.
+
+(* ------------------------------------------------------------------ *)
+(* every view of the state (repaired model)                             *)
+(* ------------------------------------------------------------------ *)
+
+(* what serialize() stores at byte 24 *)
+Definition ser_cnt (f : filt) : N := if f_dirty f then DIRTY else f_cnt f.
+(* the (non-empty) serialized image of an object, as an abstract memory: same fixed fields, bit array, stored count *)
+Definition ser_img (s : cst) : cst := mkS (s_f s) (s_bits s) (ser_cnt (s_f s)).
+
+Section Views.
+  Variable idx : item -> list N.      (* ANY index function *)
+  Variable cap : N.
+  Hypothesis cap_lt : cap < two64.
+  Hypothesis idx_lt : forall x i, In i (idx x) -> i < cap.
+
+  Notation frunT := (frun true idx).
+  Notation squeryI := (squery idx).
+
+  (* The views the property text lists.  [s] is the state the history has produced. *)
+  Inductive view_of (s : cst) : cst -> Prop :=
+  | V_copy s' : s_f s' = s_f s -> s_bits s' = s_bits s -> view_of s s'
+      (* the filter itself, its copy / move (same cached fields, same bits) *)
+  | V_serdes : view_of s (deser_view (ser_img s))
+      (* deserialize (serialize s) *)
+  | V_serwrap ro : view_of s (wrap_view (ser_img s) ro)
+      (* wrap / writable_wrap of a block holding serialize s *)
+  | V_memwrap ro : is_wview s -> minv s -> view_of s (wrap_view s ro)
+      (* wrap / writable_wrap of the caller memory the filter lives in, at this time *)
+  | V_memdes : is_wview s -> minv s -> view_of s (deser_view s)
+      (* deserialize of that memory *)
+  | V_union t post : inv cap t -> f_ro (s_f t) = false -> Forall monotone post -> Forall (op_ok cap) post ->
+      view_of s (frunT (FUnion (s_bits s) :: post) t)
+      (* any compatible filter [t] (same index function and capacity, any state) after union_with(s), and after any
+         further monotone history *).
+
+  Lemma ser_img_ok s : inv cap s -> s_mcnt (ser_img s) = DIRTY \/ s_mcnt (ser_img s) = popcount (s_bits (ser_img s)).
+  Proof.
+    intros (_ & _ & Hc). unfold ser_img, ser_cnt. cbn [s_mcnt s_bits s_f].
+    destruct (f_dirty (s_f s)) eqn:Hd; [now left|]. right. destruct Hc as [Hc|Hc]; [congruence|exact Hc].
+  Qed.
+
+  Lemma inv_ser_img s : inv cap s -> inv cap (ser_img s).
+  Proof. intros H. exact H. Qed.
+
+  Lemma view_query s x v :
+    inv cap s -> idx x <> [] -> all_set (s_bits s) (idx x) = true -> view_of s v -> squeryI v x = true.
+  Proof.
+    intros Hi Hne Hall Hv. destruct Hv as [s' Hf Hb | | ro | ro Hw Hm | Hw Hm | t post Ht Hro Hpost Hok].
+    - apply (inv_query idx cap); [|assumption|now rewrite Hb].
+      destruct Hi as (A & B & C). unfold inv, cache_ok. rewrite Hf, Hb. now repeat split.
+    - apply (inv_query idx cap); [|assumption|exact Hall].
+      apply (fresh_view_inv cap (ser_img s) false); [exact Hi|now apply ser_img_ok].
+    - apply (inv_query idx cap); [|assumption|exact Hall].
+      apply (fresh_view_inv cap (ser_img s) ro); [exact Hi|now apply ser_img_ok].
+    - apply (inv_query idx cap); [|assumption|exact Hall].
+      apply (fresh_view_inv cap s ro); [exact Hi|apply Hm].
+    - apply (inv_query idx cap); [|assumption|exact Hall].
+      apply (fresh_view_inv cap s false); [exact Hi|apply Hm].
+    - apply (inv_query idx cap); [|assumption|].
+      + apply (inv_frun true idx cap cap_lt idx_lt); [assumption| |now left].
+        constructor; [|assumption]. cbn [op_ok]. apply Hi.
+      + change (frunT (FUnion (s_bits s) :: post) t) with (frunT post (fstep true idx t (FUnion (s_bits s)))).
+        apply all_set_spec. intros i Hin. apply frun_mono; [assumption|].
+        rewrite fstep_bits. rewrite all_set_spec in Hall.
+        rewrite Hro. cbn [andb]. rewrite N.lor_spec, (Hall i Hin). apply orb_true_r.
+  Qed.
+
+  (* NO FALSE NEGATIVE IN ANY VIEW.  Start from any sound writable state [s0] (e.g. a freshly built filter), run ANY
+     history that contains an insertion of [x] (update or query_and_update) followed only by monotone operations
+     (no intersect / invert / reset): every view of the resulting state reports [x]. *)
+  Theorem nfn_every_view s0 pre ins post x v :
+    inv cap s0 -> f_ro (s_f s0) = false -> idx x <> [] ->
+    inserts ins x -> Forall monotone post -> Forall (op_ok cap) (pre ++ ins :: post) ->
+    view_of (frunT (pre ++ ins :: post) s0) v -> squeryI v x = true.
+  Proof.
+    intros Hi Hro Hne Hins Hpost Hok Hv.
+    eapply view_query; [| |  |exact Hv]; [|assumption|].
+    - apply (inv_frun true idx cap cap_lt idx_lt); [assumption|assumption|now left].
+    - now apply nfn_bits.
+  Qed.
+
+  (* the memory views are available after every history of a writable view of caller memory *)
+  Theorem memory_views_available s0 ops :
+    is_wview s0 -> inv cap s0 -> minv s0 -> Forall (op_ok cap) ops ->
+    is_wview (frunT ops s0) /\ minv (frunT ops s0).
+  Proof.
+    intros Hw Hi Hm Hok. split.
+    - clear Hi Hm Hok. revert s0 Hw. induction ops as [|op t IH]; intros s0 Hw; [assumption|].
+      apply IH. now apply is_wview_fstep.
+    - now apply (minv_frun_fixed true idx cap cap_lt idx_lt).
+  Qed.
+End Views.
+
+(* ------------------------------------------------------------------ *)
+(* the double-hashing index function of ANY hash function fits the object-level theorems *)
+(* ------------------------------------------------------------------ *)
+
+Lemma indices_fixed H f g x :
+  f_seed g = f_seed f -> f_nh g = f_nh f -> f_cap g = f_cap f -> indices_of H g x = indices_of H f x.
+Proof. unfold indices_of. now intros -> -> ->. Qed.
+
+Lemma compatible_indices H f g x : compatible f g = true -> indices_of H f x = indices_of H g x.
+Proof.
+  unfold compatible. intros C. apply andb_prop in C. destruct C as [C C3]. apply andb_prop in C. destruct C as [C1 C2].
+  apply N.eqb_eq in C1, C2, C3. symmetry. now apply indices_fixed.
+Qed.
+
+Lemma indices_lt H f x i : f_cap f <> 0 -> In i (indices_of H f x) -> i < f_cap f.
+Proof. unfold indices_of. intros Hc Hi. eapply bf_indices_lt; eassumption. Qed.
+
+Lemma indices_nonempty H f x : f_nh f <> 0 -> indices_of H f x <> [].
+Proof. unfold indices_of. intros Hn. now apply bf_indices_nonempty. Qed.
+
+Theorem nfn_every_view_hash (H : list N -> N -> N) s0 pre ins post x v :
+  let idx := indices_of H (s_f s0) in
+  let cap := f_cap (s_f s0) in
+  cap <> 0 -> cap < two64 -> f_nh (s_f s0) <> 0 ->
+  inv cap s0 -> f_ro (s_f s0) = false ->
+  inserts ins x -> Forall monotone post -> Forall (op_ok cap) (pre ++ ins :: post) ->
+  view_of idx cap (frun true idx (pre ++ ins :: post) s0) v -> squery idx v x = true.
+Proof.
+  intros idx cap Hc0 Hc Hn Hi Hro Hins Hpost Hok Hv.
+  eapply (nfn_every_view idx cap Hc); try eassumption.
+  - intros y i. now apply indices_lt.
+  - now apply indices_nonempty.
+Qed.
+
+(* a freshly constructed filter (owned, or over caller memory after the constructor wrote its image) is a sound start state *)
+Lemma fresh_inv seed nh cap mem mcnt :
+  inv cap (mkS (mkF seed nh cap false false 0 mem 0) 0 mcnt).
+Proof. unfold inv, cache_ok. cbn. split; [reflexivity|]. split; [apply in_range_0|now right]. Qed.
+
+Lemma fresh_minv seed nh cap mem : minv (mkS (mkF seed nh cap false false 0 mem 0) 0 0).
+Proof. unfold minv. cbn. split; [now right|discriminate]. Qed.
+
+(* ------------------------------------------------------------------ *)
+(* refusals at the level of the protocol step (ANY hash function, both variants where they agree) *)
+(* ------------------------------------------------------------------ *)
+
+Lemma wstep_union_incompatible fx H w r r2 fe ge :
+  reg_get (w_f w) r = Some fe -> reg_get (w_f w) r2 = Some ge -> compatible (e_f fe) (e_f ge) = false ->
+  wstep fx H w (OUnion r r2) = (w, (refused, [bz (f_ro (e_f fe)); 1]%Z)) /\
+  wstep fx H w (OIntersect r r2) = (w, (refused, [bz (f_ro (e_f fe)); 1]%Z)).
+Proof. intros H1 H2 H3. unfold wstep. rewrite H1, H2, H3. now split. Qed.
+
+Lemma wstep_readonly_write_refused fx H w r fe x :
+  reg_get (w_f w) r = Some fe -> f_ro (e_f fe) = true -> x <> [] ->
+  wstep fx H w (OUpdate r x) = (w, (refused, [1]%Z)) /\
+  wstep fx H w (OQau r x) = (w, (refused, [1; 0; 0; 0]%Z)) /\
+  wstep fx H w (OReset r) = (w, (refused, [1; 0]%Z)).
+Proof.
+  intros H1 H2 Hx. unfold wstep. rewrite H1. unfold core_update, core_qau, core_reset. rewrite H2.
+  destruct x; [congruence|]. now repeat split.
+Qed.
+
+Lemma wstep_readonly_setop_refused H w r r2 fe ge :
+  reg_get (w_f w) r = Some fe -> reg_get (w_f w) r2 = Some ge -> f_ro (e_f fe) = true ->
+  compatible (e_f fe) (e_f ge) = true ->
+  wstep true H w (OUnion r r2) = (w, (refused, [1; 0]%Z)) /\
+  wstep true H w (OIntersect r r2) = (w, (refused, [1; 0]%Z)) /\
+  wstep true H w (OInvert r) = (w, (refused, [1; 0]%Z)).
+Proof.
+  intros H1 H2 H3 H4. unfold wstep. rewrite H1, H2, H4. unfold core_union, core_intersect, core_invert. rewrite H3.
+  now repeat split.
+Qed.
+
+Lemma new_owned_refusals nbits nh seed :
+  nh = 0 \/ nbits = 0 \/ MAX_BITS < nbits -> new_owned nbits nh seed = None.
+Proof.
+  unfold new_owned, ctor_ok. intros [-> | [-> | Hm]].
+  - reflexivity.
+  - now rewrite andb_false_r.
+  - apply N.leb_gt in Hm. rewrite Hm. now rewrite andb_false_r.
+Qed.
+
+(* a writable wrap of an EMPTY image is refused *)
+Lemma writable_wrap_empty_refused d b :
+  (8 <= length d)%nat -> N.land (nth 3 d 0) 4 <> 0 -> wrap_filt d b true = None.
+Proof.
+  intros Hl Hf. unfold wrap_filt, parse.
+  destruct (Nat.ltb_spec (length d) 8); [reflexivity|].
+  destruct ((nth 0 d 0 <? 3) || (4 <? nth 0 d 0)); [reflexivity|].
+  destruct (negb (nth 1 d 0 =? 1)); [reflexivity|].
+  destruct (negb (nth 2 d 0 =? 21)); [reflexivity|].
+  destruct (Nat.ltb (length d) (N.to_nat (nth 0 d 0) * 8)); [reflexivity|].
+  apply N.eqb_neq in Hf. rewrite Hf. reflexivity.
+Qed.
+
+(* ------------------------------------------------------------------ *)
+(* the serialized image, byte level: deserialize / wrap of serialize    *)
+(* ------------------------------------------------------------------ *)
+
+Lemma length_le_bytes n : forall x, length (N_to_le_bytes n x) = n.
+Proof. induction n as [|n IH]; intros x; cbn [N_to_le_bytes length]; [reflexivity|now rewrite IH]. Qed.
+
+Lemma w8_testbit x j : N.testbit (w8 x) j = N.testbit x j && (j <? 8).
+Proof.
+  unfold w8. change 255 with (N.ones 8). rewrite N.land_spec, ones_spec. reflexivity.
+Qed.
+
+Lemma le_of_le_testbit n : forall x j,
+  N.testbit (le_bytes_to_N (N_to_le_bytes n x)) j = N.testbit x j && (j <? 8 * N.of_nat n).
+Proof.
+  induction n as [|n IH]; intros x j; cbn [N_to_le_bytes le_bytes_to_N].
+  - rewrite N.bits_0. change (8 * N.of_nat 0) with 0. destruct (N.ltb_spec j 0); [lia|now rewrite andb_false_r].
+  - rewrite N.lor_spec, w8_testbit, w8_testbit.
+    destruct (N.ltb_spec j 8) as [Hj|Hj].
+    + rewrite N.shiftl_spec_low by assumption. rewrite orb_false_r, andb_true_r.
+      destruct (N.ltb_spec j (8 * N.of_nat (S n))); [now rewrite andb_true_r|lia].
+    + rewrite !andb_false_r, orb_false_l. rewrite N.shiftl_spec_high' by assumption. rewrite IH, N.shiftr_spec'.
+      replace (j - 8 + 8) with j by lia. f_equal.
+      destruct (N.ltb_spec (j - 8) (8 * N.of_nat n)), (N.ltb_spec j (8 * N.of_nat (S n))); try reflexivity; lia.
+Qed.
+
+Lemma le_of_le n x : x < 2 ^ (8 * N.of_nat n) -> le_bytes_to_N (N_to_le_bytes n x) = x.
+Proof.
+  intros H. apply N.bits_inj. intros j. rewrite le_of_le_testbit.
+  destruct (N.ltb_spec j (8 * N.of_nat n)); [apply andb_true_r|].
+  rewrite andb_false_r. symmetry. now apply (lt_in_range x (8 * N.of_nat n)).
+Qed.
+
+Lemma rd_skip a d off n k : length a = k -> (k <= off)%nat -> rd (a ++ d) off n = rd d (off - k) n.
+Proof.
+  intros <- Hk. unfold rd. rewrite skipn_app. rewrite (skipn_all2 a) by assumption. reflexivity.
+Qed.
+
+Lemma rd_head n v post : rd (N_to_le_bytes n v ++ post) 0 n = le_bytes_to_N (N_to_le_bytes n v).
+Proof.
+  unfold rd. cbn [skipn]. rewrite firstn_app, length_le_bytes, Nat.sub_diag. cbn [firstn].
+  rewrite app_nil_r. rewrite firstn_all2; [reflexivity|]. now rewrite length_le_bytes.
+Qed.
+
+(* peel the leading segments of known length off an image *)
+Ltac peel :=
+  repeat match goal with
+  | |- context [rd (?a ++ ?d) ?off ?n] =>
+      let k := eval cbn [length N_to_le_bytes] in (length a) in
+      lazymatch off with
+      | O => fail
+      | _ => rewrite (rd_skip a d off n k) by (first [reflexivity | apply length_le_bytes | cbn; lia]); cbn [Nat.sub]
+      end
+  end.
+
+(* a valid configuration: what the public constructors produce, below 2^32 bits (the deserializer computes the capacity in
+   32 bits: num_longs << 6 on uint32_t) *)
+Definition cfg_ok (f : filt) : Prop :=
+  f_nh f < 2 ^ 16 /\ f_seed f < 2 ^ 64 /\ f_cap f mod 64 = 0 /\ f_cap f <> 0 /\ f_cap f < 2 ^ 32.
+
+Lemma cap_shifts cap : cap mod 64 = 0 -> cap < 2 ^ 32 ->
+  N.shiftr cap 6 < 2 ^ 32 /\ w32 (N.shiftl (N.shiftr cap 6) 6) = cap /\
+  N.to_nat (w32 (N.shiftl (N.shiftr cap 6) 3)) = cap_bytes cap /\ round_cap cap = cap /\
+  (8 * N.of_nat (cap_bytes cap) = cap).
+Proof.
+  intros Hm Hc. unfold cap_bytes.
+  rewrite !N.shiftr_div_pow2, !N.shiftl_mul_pow2, !w32_mod.
+  change (2 ^ 6) with 64. change (2 ^ 3) with 8. change two32 with (2 ^ 32) in *.
+  pose proof (N.div_mod cap 64 ltac:(discriminate)) as D. rewrite Hm in D.
+  set (k := cap / 64) in *.
+  assert (Hk : k < 2 ^ 26). { change (2 ^ 32) with (64 * 2 ^ 26) in Hc. lia. }
+  assert (E8 : cap / 8 = k * 8).
+  { replace cap with ((k * 8) * 8) by lia. now rewrite N.div_mul. }
+  change (2 ^ 26) with 67108864 in Hk. change (2 ^ 32) with 4294967296 in *.
+  split; [lia|]. split; [rewrite N.mod_small; lia|]. split; [rewrite N.mod_small by lia; now rewrite E8|].
+  split.
+  - rewrite round_cap_spec by (change two64 with 18446744073709551616; lia).
+    replace (cap + 63) with (k * 64 + 63) by lia. rewrite N.div_add_l by discriminate.
+    change (63 / 64) with 0. lia.
+  - rewrite E8, N2Nat.id. lia.
+Qed.
+
+Definition image (f : filt) (c bits : N) : list N :=
+  header (f_seed f) (f_nh f) (f_cap f) false ++ N_to_le_bytes 8 c ++ N_to_le_bytes (cap_bytes (f_cap f)) bits.
+
+Lemma serialize_nonempty f bits : is_empty f = false -> serialize f bits = image f (ser_cnt f) bits.
+Proof. intros H. unfold serialize, image, ser_cnt. now rewrite H. Qed.
+
+Lemma image_length f c bits : length (image f c bits) = (32 + cap_bytes (f_cap f))%nat.
+Proof.
+  unfold image, header. rewrite !app_length, !length_le_bytes. cbn [length]. lia.
+Qed.
+
+(* what the parser sees in a block that starts with a standard image (anything may follow) *)
+Lemma parse_image f c bits junk ro wrap stream :
+  cfg_ok f -> c < 2 ^ 64 -> in_range bits (f_cap f) ->
+  parse (image f c bits ++ junk) ro wrap stream = PFull (f_cap f) (f_nh f) (f_seed f) c (cap_bytes (f_cap f)) /\
+  rd (image f c bits ++ junk) 32 (cap_bytes (f_cap f)) = bits.
+Proof.
+  intros (Hnh & Hseed & Hm & Hc0 & Hc) Hcc Hr.
+  destruct (cap_shifts _ Hm Hc) as (Hl & Hw & Hb & Hrc & H8).
+  assert (Hlen : length (image f c bits ++ junk) = (32 + cap_bytes (f_cap f) + length junk)%nat)
+    by (rewrite app_length, image_length; lia).
+  assert (Rnh : rd (image f c bits ++ junk) 4 2 = f_nh f).
+  { unfold image, header. rewrite <- !app_assoc. peel. rewrite rd_head. now apply le_of_le. }
+  assert (Rseed : rd (image f c bits ++ junk) 8 8 = f_seed f).
+  { unfold image, header. rewrite <- !app_assoc. peel. rewrite rd_head. now apply le_of_le. }
+  assert (Rnl : rd (image f c bits ++ junk) 16 4 = N.shiftr (f_cap f) 6).
+  { unfold image, header. rewrite <- !app_assoc. peel. rewrite rd_head. now apply le_of_le. }
+  assert (Rc : rd (image f c bits ++ junk) 24 8 = c).
+  { unfold image, header. rewrite <- !app_assoc. peel. rewrite rd_head. now apply le_of_le. }
+  assert (Rb : rd (image f c bits ++ junk) 32 (cap_bytes (f_cap f)) = bits).
+  { unfold image, header. rewrite <- !app_assoc. peel. rewrite rd_head. apply le_of_le. rewrite H8. now apply in_range_lt. }
+  split; [|exact Rb].
+  assert (N0 : nth 0 (image f c bits ++ junk) 0 = 4) by reflexivity.
+  assert (N1 : nth 1 (image f c bits ++ junk) 0 = 1) by reflexivity.
+  assert (N2 : nth 2 (image f c bits ++ junk) 0 = 21) by reflexivity.
+  assert (N3 : nth 3 (image f c bits ++ junk) 0 = 0) by reflexivity.
+  unfold parse. rewrite N0, N1, N2, N3, Rnh, Rseed, Rnl, Rc, Hw, Hb, Hrc, Hlen.
+  set (L := (32 + cap_bytes (f_cap f) + length junk)%nat) in *.
+  replace (Nat.ltb L 8) with false by (symmetry; apply Nat.ltb_ge; lia).
+  replace ((4 <? (if stream then 1 else 3)) || (4 <? 4)) with false by (now destruct stream).
+  change (negb (1 =? 1)) with false. change (negb (21 =? 21)) with false. change (N.land 0 4 =? 0) with true.
+  change (N.to_nat 4 * 8)%nat with 32%nat.
+  replace (Nat.ltb L 32) with false by (symmetry; apply Nat.ltb_ge; lia).
+  replace (Nat.ltb (L - 32) (cap_bytes (f_cap f))) with false by (symmetry; apply Nat.ltb_ge; lia).
+  cbn [negb andb]. rewrite !andb_false_r. reflexivity.
+Qed.
+
+(* deserialize(serialize f), from a byte block or a stream; anything may follow the image in the block *)
+Theorem deser_serialize f bits junk stream :
+  cfg_ok f -> in_range bits (f_cap f) -> is_empty f = false -> ser_cnt f < 2 ^ 64 ->
+  deser_filt (serialize f bits ++ junk) stream =
+  Some (mkF (f_seed f) (f_nh f) (f_cap f) (N.eqb (ser_cnt f) DIRTY) false (ser_cnt f) None bits).
+Proof.
+  intros Hc Hr He Hs. rewrite (serialize_nonempty _ _ He).
+  destruct (parse_image f (ser_cnt f) bits junk false false stream Hc Hs Hr) as [Hp Hb].
+  unfold deser_filt. rewrite Hp, Hb. reflexivity.
+Qed.
+
+(* wrap / writable_wrap of a block holding serialize f: a view of block [b] *)
+Theorem wrap_serialize f bits junk b writable :
+  cfg_ok f -> in_range bits (f_cap f) -> is_empty f = false -> ser_cnt f < 2 ^ 64 ->
+  wrap_filt (serialize f bits ++ junk) b writable =
+  Some (mkF (f_seed f) (f_nh f) (f_cap f) (N.eqb (ser_cnt f) DIRTY) (negb writable)
+            (if negb writable && N.eqb (ser_cnt f) DIRTY then popcount bits else ser_cnt f) (Some b) 0).
+Proof.
+  intros Hc Hr He Hs. rewrite (serialize_nonempty _ _ He).
+  destruct (parse_image f (ser_cnt f) bits junk (negb writable) true false Hc Hs Hr) as [Hp Hb].
+  unfold wrap_filt. rewrite Hp, Hb. reflexivity.
+Qed.
+
+(* the abstract views used by nfn_every_view ARE what the byte-level functions build *)
+Corollary deser_serialize_is_view s junk stream :
+  cfg_ok (s_f s) -> in_range (s_bits s) (f_cap (s_f s)) -> is_empty (s_f s) = false -> ser_cnt (s_f s) < 2 ^ 64 ->
+  exists g, deser_filt (serialize (s_f s) (s_bits s) ++ junk) stream = Some g /\
+            mkS g (f_bits g) (ser_cnt (s_f s)) = deser_view (ser_img s).
+Proof.
+  intros Hc Hr He Hs. eexists. split; [now apply deser_serialize|]. reflexivity.
+Qed.
+
+Corollary wrap_serialize_is_view s junk b writable :
+  cfg_ok (s_f s) -> in_range (s_bits s) (f_cap (s_f s)) -> is_empty (s_f s) = false -> ser_cnt (s_f s) < 2 ^ 64 ->
+  exists g, wrap_filt (serialize (s_f s) (s_bits s) ++ junk) b writable = Some g /\
+            f_mem g = Some b /\
+            let v := wrap_view (ser_img s) (negb writable) in
+            (f_seed g, f_nh g, f_cap g, f_dirty g, f_ro g, f_cnt g) =
+            (f_seed (s_f v), f_nh (s_f v), f_cap (s_f v), f_dirty (s_f v), f_ro (s_f v), f_cnt (s_f v)).
+Proof.
+  intros Hc Hr He Hs. eexists. split; [now apply wrap_serialize|]. split; reflexivity.
+Qed.
+
+(* the empty image (3 preamble longs, EMPTY flag): deserialize and read-only wrap build a fresh filter of the same
+   configuration with the public constructor *)
+Lemma parse_empty_image f junk ro stream :
+  cfg_ok f ->
+  parse (header (f_seed f) (f_nh f) (f_cap f) true ++ junk) ro false stream = PEmpty (f_cap f) (f_nh f) (f_seed f) /\
+  parse (header (f_seed f) (f_nh f) (f_cap f) true ++ junk) true true stream = PEmpty (f_cap f) (f_nh f) (f_seed f).
+Proof.
+  intros (Hnh & Hseed & Hm & Hc0 & Hc).
+  destruct (cap_shifts _ Hm Hc) as (Hl & Hw & Hb & Hrc & H8).
+  set (d := header (f_seed f) (f_nh f) (f_cap f) true ++ junk).
+  assert (Hlen : length d = (24 + length junk)%nat).
+  { unfold d, header. rewrite !app_length, !length_le_bytes. cbn [length]. lia. }
+  assert (Rnh : rd d 4 2 = f_nh f).
+  { unfold d, header. rewrite <- !app_assoc. peel. rewrite rd_head. now apply le_of_le. }
+  assert (Rseed : rd d 8 8 = f_seed f).
+  { unfold d, header. rewrite <- !app_assoc. peel. rewrite rd_head. now apply le_of_le. }
+  assert (Rnl : rd d 16 4 = N.shiftr (f_cap f) 6).
+  { unfold d, header. rewrite <- !app_assoc. peel. rewrite rd_head. now apply le_of_le. }
+  assert (N0 : nth 0 d 0 = 3) by reflexivity.
+  assert (N1 : nth 1 d 0 = 1) by reflexivity.
+  assert (N2 : nth 2 d 0 = 21) by reflexivity.
+  assert (N3 : nth 3 d 0 = 4) by reflexivity.
+  unfold parse. rewrite N0, N1, N2, N3, Rnh, Rseed, Rnl, Hw, Hlen.
+  set (L := (24 + length junk)%nat) in *.
+  replace (Nat.ltb L 8) with false by (symmetry; apply Nat.ltb_ge; lia).
+  replace ((3 <? (if stream then 1 else 3)) || (4 <? 3)) with false by (now destruct stream).
+  change (negb (1 =? 1)) with false. change (negb (21 =? 21)) with false. change (N.land 4 4 =? 0) with false.
+  change (N.to_nat 3 * 8)%nat with 24%nat.
+  replace (Nat.ltb L 24) with false by (symmetry; apply Nat.ltb_ge; lia).
+  cbn [negb andb]. now split.
+Qed.
+
+Theorem deser_serialize_empty f bits junk stream :
+  cfg_ok f -> f_nh f <> 0 -> f_cap f <= MAX_BITS -> is_empty f = true ->
+  deser_filt (serialize f bits ++ junk) stream = Some (mkF (f_seed f) (f_nh f) (f_cap f) false false 0 None 0) /\
+  wrap_filt (serialize f bits ++ junk) 0%Z false = Some (mkF (f_seed f) (f_nh f) (f_cap f) false false 0 None 0).
+Proof.
+  intros Hc Hn Hm He. unfold serialize. rewrite He, app_nil_r.
+  destruct (parse_empty_image f junk false stream Hc) as [Hp _].
+  destruct (parse_empty_image f junk false false Hc) as [_ Hp'].
+  destruct Hc as (_ & _ & Hm64 & Hc0 & Hc32).
+  destruct (cap_shifts _ Hm64 Hc32) as (_ & _ & _ & Hrc & _).
+  assert (Hn' : new_owned (f_cap f) (f_nh f) (f_seed f) = Some (mkF (f_seed f) (f_nh f) (f_cap f) false false 0 None 0)).
+  { unfold new_owned, ctor_ok. apply N.eqb_neq in Hn, Hc0. apply N.leb_le in Hm. rewrite Hn, Hc0, Hm, Hrc. reflexivity. }
+  unfold deser_filt, wrap_filt. cbn [negb]. rewrite Hp, Hp'. now split.
+Qed.
+
+(* ------------------------------------------------------------------ *)
+(* no false negative through the BYTES: the history of nfn_every_view, then serialize, then deserialize / wrap of the bytes *)
+(* ------------------------------------------------------------------ *)
+Theorem nfn_through_bytes (H : list N -> N -> N) s0 pre ins post x junk :
+  let idx := indices_of H (s_f s0) in
+  let cap := f_cap (s_f s0) in
+  cfg_ok (s_f s0) -> f_nh (s_f s0) <> 0 ->
+  inv cap s0 -> f_ro (s_f s0) = false ->
+  inserts ins x -> Forall monotone post -> Forall (op_ok cap) (pre ++ ins :: post) ->
+  let s := frun true idx (pre ++ ins :: post) s0 in
+  let img := serialize (s_f s) (s_bits s) ++ junk in
+  (forall stream, exists g, deser_filt img stream = Some g /\ core_query g (f_bits g) (indices_of H g x) = true) /\
+  (forall b writable, exists g, wrap_filt img b writable = Some g /\
+                                core_query g (rd img 32 (cap_bytes (f_cap g))) (indices_of H g x) = true).
+Proof.
+  intros idx cap Hcfg Hn Hi Hro Hins Hpost Hok s img.
+  destruct Hcfg as (Hnh & Hseed & Hm & Hc0 & Hc32).
+  assert (Hc64 : cap < two64).
+  { eapply N.lt_trans; [exact Hc32|]. reflexivity. }
+  assert (Hidx : forall y i, In i (idx y) -> i < cap) by (intros y i; now apply indices_lt).
+  assert (Hne : idx x <> []) by now apply indices_nonempty.
+  assert (Hs : inv cap s) by (apply (inv_frun true idx cap Hc64 Hidx); [assumption|assumption|now left]).
+  assert (Hall : all_set (s_bits s) (idx x) = true) by now apply nfn_bits.
+  assert (Hq : squery idx s x = true) by now apply (inv_query idx cap).
+  destruct (frun_fixed true idx (pre ++ ins :: post) s0) as (F1 & F2 & F3 & F4 & F5). fold s in F1, F2, F3, F4, F5.
+  assert (Hcfg' : cfg_ok (s_f s)) by (unfold cfg_ok; rewrite F1, F2, F3; repeat split; assumption).
+  assert (Hrng : in_range (s_bits s) (f_cap (s_f s))) by (rewrite F3; apply Hs).
+  assert (Hemp : is_empty (s_f s) = false).
+  { rewrite squery_spec in Hq. apply andb_prop in Hq. destruct Hq as [Hq _]. now destruct (is_empty (s_f s)). }
+  assert (Hsc : ser_cnt (s_f s) < 2 ^ 64).
+  { unfold ser_cnt. destruct Hs as (_ & Hr & Hcache). destruct (f_dirty (s_f s)) eqn:Hd; [reflexivity|].
+    destruct Hcache as [Hcache|Hcache]; [congruence|]. rewrite Hcache.
+    eapply N.le_lt_trans; [apply (in_range_popcount _ _ Hr)|exact Hc64]. }
+  assert (Hcount : ser_cnt (s_f s) = DIRTY \/ ser_cnt (s_f s) = popcount (s_bits s)) by (apply (ser_img_ok cap s Hs)).
+  assert (Hix : forall g, f_seed g = f_seed (s_f s) -> f_nh g = f_nh (s_f s) -> f_cap g = f_cap (s_f s) ->
+                          indices_of H g x = idx x).
+  { intros g A B C. unfold idx. apply indices_fixed; congruence. }
+  assert (Hnz : forall c d, (c = DIRTY \/ c = popcount (s_bits s)) -> d = N.eqb c DIRTY ->
+                            negb d && (c =? 0) = false).
+  { intros c d Hcd ->. destruct (N.eqb_spec c DIRTY) as [E|E]; [reflexivity|]. cbn [negb andb].
+    destruct Hcd as [Hcd|Hcd]; [contradiction|]. apply N.eqb_neq. rewrite Hcd. intros Z0.
+    apply (proj1 (popcount_zero _)) in Z0. rewrite all_set_spec in Hall.
+    destruct (idx x) as [|i t]; [congruence|]. specialize (Hall i (or_introl eq_refl)). rewrite Z0, N.bits_0 in Hall.
+    discriminate. }
+  split.
+  - intros stream. eexists. split; [now apply deser_serialize|].
+    cbn [f_bits]. rewrite Hix by reflexivity. unfold core_query, is_empty. cbn [f_dirty f_cnt].
+    rewrite (Hnz _ _ Hcount eq_refl). exact Hall.
+  - intros b writable. eexists. split; [now apply wrap_serialize|].
+    cbn [f_cap]. rewrite Hix by reflexivity. unfold img. rewrite (serialize_nonempty _ _ Hemp).
+    destruct (parse_image (s_f s) (ser_cnt (s_f s)) (s_bits s) junk false false false Hcfg' Hsc Hrng) as [_ Hb].
+    rewrite Hb. unfold core_query, is_empty. cbn [f_dirty f_cnt].
+    destruct (N.eqb_spec (ser_cnt (s_f s)) DIRTY) as [E|E].
+    + cbn [negb andb]. exact Hall.
+    + rewrite andb_false_r. rewrite (Hnz _ false Hcount); [exact Hall|]. symmetry. now apply N.eqb_neq.
+Qed.
